@@ -120,6 +120,7 @@ def run(case, ctx, rng):
             h.initstate()
             h.padmethod.bitcnt = P
             h.update(blocks)
+            sib = make(alg); sib(b'sibling'); sib.initstate(); sib.update(bytes(B))      # a sibling appears and streams, too
             cnt = h.padmethod.bitcnt
             return h.update(t, padding=True), cnt
         got = call(stream)
